@@ -42,10 +42,18 @@ class Rewrite(Edit):
 
 
 def _eval(args):
-    pid, files, root, tier = args
+    pid, files, root, tier, base, expect = args
     from .driver import evaluate
     sys.setrecursionlimit(20000)
     try:
+        if expect is not None:
+            # first pass without the (expensive) typestate exploration; enough if the cheap rules already fire
+            tree = SourceTree(files, root)
+            rep, _ = evaluate(pid, tier, tree, skip_a3=True)
+            keys = [(v["key"], v["rule"]) for v in rep.violations]
+            if any(k not in base and (not expect or any(r.startswith(x) or k.startswith(x) for x in expect))
+                   for (k, r) in keys):
+                return ("ok", keys)
         tree = SourceTree(files, root)
         rep, _ = evaluate(pid, tier, tree)
         return ("ok", [(v["key"], v["rule"]) for v in rep.violations])
@@ -71,7 +79,7 @@ def run_for(pid, tree, base_rep=None, jobs=None, only=None):
         if files is None:
             stale.append(e.id)
             continue
-        tasks.append((e, (pid, files, tree.root, "quick")))
+        tasks.append((e, (pid, files, tree.root, "quick", base, e.expect if e.kind == "mutant" else None)))
     jobs = jobs or int(os.environ.get("VERIF_JOBS", "16"))
     t0 = time.time()
     results = []
